@@ -151,6 +151,7 @@ htp_cfg_t *htp_config_create(void) {
 
     cfg->field_limit_hard = HTP_FIELD_LIMIT_HARD;
     cfg->field_limit_soft = HTP_FIELD_LIMIT_SOFT;
+    cfg->number_headers_limit = HTP_MAX_HEADERS_NUMBER;
     cfg->log_level = HTP_LOG_NOTICE;
     cfg->response_decompression_enabled = 1;
     cfg->request_decompression_enabled = 0; // disabled by default
@@ -550,6 +551,11 @@ void htp_config_set_lzma_layers(htp_cfg_t *cfg, int limit) {
 void htp_config_set_max_tx(htp_cfg_t *cfg, uint32_t limit) {
     if (cfg == NULL) return;
     cfg->max_tx = limit;
+}
+
+void htp_config_set_number_headers_limit(htp_cfg_t *cfg, uint32_t limit) {
+    if (cfg == NULL) return;
+    cfg->number_headers_limit = limit;
 }
 
 void htp_config_set_compression_bomb_limit(htp_cfg_t *cfg, size_t bomblimit) {
